@@ -4,7 +4,7 @@
 From Coq Require Import Extraction ExtrOcamlBasic.
 From GV Require Import Tables.ObsTypes Tables.Lookup Gen.Obs Tables.Enum.
 From GV Require Import Tables.Product Tables.RegFactory Tables.RegList Api.Api Api.Maps Api.Float Api.Fixed.
-From GV Require Import Ble.GoSem Ble.Layout Gen.BleImpl Ble.Handler Ble.Aes.
+From GV Require Import Ble.GoSem Ble.Layout Gen.BleImpl Ble.Handler Ble.Aes Ble.GoSemF Gen.BleImplF.
 From GV Require Import Base.Bytes Base.Hex Base.LE Vedirect.Frame Vedirect.Port Vedirect.Driver Vedirect.Judge Vedirect.Resync.
 Extraction Language OCaml.
 Set Extraction KeepSingleton.
@@ -28,4 +28,18 @@ Extraction "gvcore.ml"
   DecodeMultiRsRecord fields_MultiRsRecord DecodeSmartBatteryProtectRecord fields_SmartBatteryProtectRecord
   DecodeSmartLithiumRecord fields_SmartLithiumRecord DecodeSolarChargeRecord fields_SolarChargerRecord
   DecodeVeBusRecord fields_VeBusRecord
+  BleImplF.F.DecodeAcChargerRecord BleImplF.F.fields_AcChargerRecord
+  BleImplF.F.DecodeBatteryMonitorRecord BleImplF.F.fields_BatteryMonitorRecord
+  BleImplF.F.DecodeDcDcConverterRecord BleImplF.F.fields_DcDcConverterRecord
+  BleImplF.F.DecodeDcEnergyMeterRecord BleImplF.F.fields_DcEnergyMeterRecord
+  BleImplF.F.DecodeGxDeviceRecord BleImplF.F.fields_GxDeviceRecord
+  BleImplF.F.DecodeInverterRecord BleImplF.F.fields_InverterRecord
+  BleImplF.F.DecodeInverterRsRecord BleImplF.F.fields_InverterRsRecord
+  BleImplF.F.DecodeLynxSmartBms BleImplF.F.fields_LynxSmartBms
+  BleImplF.F.DecodeMultiRsRecord BleImplF.F.fields_MultiRsRecord
+  BleImplF.F.DecodeSmartBatteryProtectRecord BleImplF.F.fields_SmartBatteryProtectRecord
+  BleImplF.F.DecodeSmartLithiumRecord BleImplF.F.fields_SmartLithiumRecord
+  BleImplF.F.DecodeSolarChargeRecord BleImplF.F.fields_SolarChargerRecord
+  BleImplF.F.DecodeVeBusRecord BleImplF.F.fields_VeBusRecord
+  FV.is_nan_bits
   handle pkcs7 ctr_decrypt get_device_config bluez_addr_bytes render_mac aes_encrypt.
